@@ -261,15 +261,32 @@ def check_numbers(ctx, prog):
     p = fn1(prog, 'asl::XdlParser::parse')
     g = q.Guarded(p)
     ints = [e for e in fn_exprs(p) if e.get('k') == 'call' and (e.get('fn') or '').endswith('myatoiz')]
+    # decided by evaluation: the guards of the int conversion, with the length of the collected digit string bound to 1..14,
+    # must exclude every length above 9 (10 digits can exceed INT_MAX)
+    import bounded as _b
     ok = bool(ints)
+    und = None
+    worst = None
     for e in ints:
-        okk = False
-        for c, pol, kind in g.of(e):
-            cc = strip(c)
-            if kind == 'if' and pol is False and cc.get('k') == 'bin' and cc.get('op') == '>' and const_val(cc['y']) is not None and const_val(cc['y']) <= 9 and any(w.get('k') == 'call' and (w.get('pq') or '').endswith('::length') for w in walk_expr(cc['x'])):
-                okk = True
-        ok = ok and okk
-    ctx.check(ok, 'C05.numbers', p['pq'], 'parse:int conversion only up to 9 characters', fwhere(p), 'longer digit strings go through the double path', 'digit strings longer than 9 characters are converted through int: values beyond INT_MAX wrap')
+        lens = set(pe(w) for c, pol, kind in g.of(e) if isinstance(c, dict) for w in walk_expr(q.expand(p, c)) if w.get('k') == 'call' and (w.get('pq') or '').endswith('::length'))
+        if len(lens) != 1:
+            und = 'the guards of `%s` do not consult exactly one length()' % pe(e)[:40]
+            continue
+        lt = list(lens)[0]
+        for L in range(1, 15):
+            ev = _b.Bound(prog, p, {}, {lt: L})
+            r3 = _b.admitted3(ev, g.of(e), g, relevant=lambda c_, lt=lt: any(w.get('k') == 'call' and pe(w) == lt for w in walk_expr(q.expand(p, c_))))
+            ctx.evaluations += 1
+            if L > 9 and r3 is True:
+                worst = L
+            if L > 9 and r3 is None:
+                und = 'a guard of the int conversion that mentions the length is not evaluable'
+    if worst is not None or not ok:
+        ctx.violation('C05.numbers', p['pq'], 'parse:int conversion only up to 9 characters', fwhere(p), 'digit strings of %s characters are converted through int: values beyond INT_MAX wrap' % (worst if worst else 'any number of'))
+    elif und:
+        ctx.undecided('C05.numbers', p['pq'], 'parse:int conversion only up to 9 characters', fwhere(p), und)
+    else:
+        ctx.ok('C05.numbers', p['pq'], 'parse:int conversion only up to 9 characters', fwhere(p), 'the guards of the int conversion exclude digit strings longer than 9 characters (lengths 1..14 evaluated)')
 
 
 def check_tags(ctx, prog):
